@@ -91,8 +91,13 @@ fn primitives_case(case: &Case, ev: &Evidence) -> CaseResult {
         0 => {
             let d = rng.bytes(edge_len(&rng));
             eq("hash", e(a.hash(&d)), e(b.hash(&d)), format!("len {}", d.len()))?;
-            let k = rng.bytes([nh, 1, 200][rng.below(3) as usize]);
+            // HMAC keys around the hash's block size (longer keys are hashed first, RFC 2104), and the empty key
+            let block = if nh == 32 { 64 } else { 128 };
+            let k = rng.bytes([nh, 1, 200, block - 1, block, block + 1, 2 * block, 0][rng.below(8) as usize]);
             eq("mac", e(a.mac(&k, &d)), e(b.mac(&k, &d)), format!("key {} data {}", k.len(), d.len()))?;
+            if k.len() >= block {
+                ev.class("mac_keys_of_a_block_or_more");
+            }
             ev.class("hash_mac");
             if !d.is_empty() {
                 ev.nontrivial(&("hm", &d, &k));
@@ -110,7 +115,11 @@ fn primitives_case(case: &Case, ev: &Evidence) -> CaseResult {
                 1 => rng.bytes(nh),
                 _ => x.unwrap_or_else(|_| rng.bytes(nh)),
             };
-            let info = rng.bytes(edge_len(&rng).min(600));
+            // (the OpenSSL provider documents a 1024-byte limit for info inherited from old OpenSSL versions; the linked one has none in this range)
+            let info = rng.bytes(edge_len(&rng));
+            if info.len() > 1024 {
+                ev.class("kdf_expand_with_info_longer_than_1024");
+            }
             let len = match rng.below(6) {
                 0 => 1,
                 1 => nh,
@@ -614,7 +623,7 @@ pub fn run(ctx: &Ctx) -> ! {
     let ev = Evidence::new(P, ctx.tier, ctx.seed, "exploration");
     ev.set_rule(
         "(1) primitives: for every provider pair and common cipher suite, generated inputs with lengths 0, 1, block/hash boundaries +-1 and up to 4 KiB: hash, MAC, KDF extract/expand (incl. 255*Nh and 255*Nh+1, PRKs longer than Nh), \
-         AEAD seal (byte equality), deterministic KEM derivation and signature public-key derivation (byte equality); sign/verify, HPKE one-shot in base and PSK mode, HPKE contexts with export (cross-operation both ways); \
+         AEAD seal (byte equality), MAC keys of 0, 1, Nh, block-1, block, block+1, 2*block bytes; deterministic KEM derivation and signature public-key derivation (byte equality); sign/verify, HPKE one-shot in base and PSK mode, HPKE contexts with export (cross-operation both ways); \
          identical accept/reject on modified tags and signatures, truncated ciphertexts, wrong key / nonce lengths, malformed public and secret keys (wrong length, flipped bits, all-zero). \
          (2) X.509: chains of 1-4 P-256 certificates generated with OpenSSL in the classes valid, expired, not yet valid, wrong issuer signature, missing intermediate, reordered intermediates, non-CA issuer (CA:FALSE, or no BasicConstraints at all), unknown root, \
          extra unrelated certificate, validated by all three shipped validators at not_before-1, not_before, mid, not_after, not_after+1 and without time: every verdict must equal the ground truth of the class (for the extra-unrelated-certificate class, which the property does not list, only equality of the three verdicts is demanded). \
